@@ -42,6 +42,9 @@ pub enum Step {
     /// a real session with a peer replica holding these entries; after the first reply a local write happens
     Session(Vec<Small>, Option<(u8, u8)>),
     SetPolicy(bool, Vec<(bool, u8)>),
+    /// another document of the same store actor (open, syncing, with its own subscriber) receives an entry, a policy, or
+    /// is closed and opened again: nothing of that may reach this document's subscribers
+    OtherDoc(u8, u8, u8, u8),
 }
 
 #[derive(Serialize, Deserialize, Clone, Debug)]
@@ -135,6 +138,7 @@ impl Prop for C12 {
             4 => (vec(small(), 0..=5), any::<bool>()).prop_map(|(v, h)| Step::Message(v, h)),
             2 => (vec(small(), 0..=6), prop::option::of((0u8..3, 0u8..7))).prop_map(|(v, w)| Step::Session(v, w)),
             1 => (any::<bool>(), vec((any::<bool>(), 0u8..7), 0..=3)).prop_map(|(n, f)| Step::SetPolicy(n, f)),
+            3 => (0u8..4, 0u8..3, 0u8..5, 0u8..4).prop_map(|(what, a, k, c)| Step::OtherDoc(what, a, k, c)),
         ];
         vec(step, 1..=max).prop_map(|steps| Case { steps }).boxed()
     }
@@ -209,6 +213,11 @@ fn run(ctx: &mut Ctx, c: &Case, o: &mut Outcome) -> R<()> {
             es(h.import_author(author(a).clone()).await)?;
         }
         es(h.open(ns, OpenOpts::default().sync()).await)?;
+        // a second document in the same actor, with a subscriber of its own
+        let other = noise_namespace().id();
+        es(h.import_namespace(noise_namespace().clone().into()).await)?;
+        let (otx, orx) = async_channel::bounded::<Event>(4096);
+        es(h.open(other, OpenOpts::default().sync().subscribe(otx.clone())).await)?;
         let mut slots: Vec<Slot> = vec![Slot::Empty, Slot::Empty, Slot::Empty];
         let mut model = Model::default();
         let mut policy = PSpec { nothing_except: false, filters: vec![] };
@@ -385,6 +394,22 @@ fn run(ctx: &mut Ctx, c: &Case, o: &mut Outcome) -> R<()> {
                         next = es(r.sync_process_message(reply, [0x44u8; 32], &mut peer_state).await)?;
                     }
                     o.class("real-session");
+                }
+                Step::OtherDoc(what_, a, k, cc) => {
+                    match what_ % 4 {
+                        0 | 1 => {
+                            let _ = h.insert_remote(other, noise_entry(*a, *k, *cc), [0x4E; 32], ContentStatus::Complete).await;
+                        }
+                        2 => {
+                            let _ = h.set_download_policy(other, to_policy(&PSpec { nothing_except: true, filters: vec![FSpec { exact: false, bytes: key(*k) }] })).await;
+                        }
+                        _ => {
+                            let _ = h.close(other).await;
+                            es(h.open(other, OpenOpts::default().sync().subscribe(otx.clone())).await)?;
+                        }
+                    }
+                    let _ = act::drain(&orx);
+                    o.class("other-document-activity");
                 }
                 Step::SetPolicy(nothing_except, filters) => {
                     let p = PSpec { nothing_except: *nothing_except, filters: filters.iter().map(|(exact, k)| FSpec { exact: *exact, bytes: key(*k) }).collect() };
